@@ -42,8 +42,11 @@ def main(args):
     # Remove the version index first. If the clean operation is interrupted
     # partway, the index must not be left referring to task outputs that have
     # already been deleted.
-    try:
-        (ctx.output_path / VERSION_INDEX_NAME).unlink()
-    except FileNotFoundError:
-        pass
+    # N.B. `shutil.rmtree()` refuses to remove a symbolic link to a directory
+    # (nothing is deleted in that case), so we must keep the index as well.
+    if not ctx.output_path.is_symlink():
+        try:
+            (ctx.output_path / VERSION_INDEX_NAME).unlink()
+        except FileNotFoundError:
+            pass
     shutil.rmtree(ctx.output_path, ignore_errors=True)
